@@ -15,6 +15,8 @@
 #include <sys/mman.h>
 
 #include <csignal>
+#include <condition_variable>
+#include <mutex>
 #include <optional>
 #include <stdexcept>
 #include <string>
@@ -373,6 +375,77 @@ class history {
 // ------------------------------------------------------------------ QSBR part
 struct qobj { u64 a, b; };
 
+// A second registered thread that passes through a quiescent state on request (strict hand-over: it runs only while the
+// main thread waits for it), so that the main thread can be brought one epoch behind the global epoch with requests pending.
+class companion {
+ public:
+  companion() : th([this] { loop(); }) { std::unique_lock lk(m); cv.wait(lk, [this] { return started && cmd == 0; }); }
+  void quiesce() { command(1); }
+  void stop() { command(2); th.join(); }
+
+ private:
+  void loop() {
+    std::unique_lock lk(m);
+    started = true;
+    cv.notify_all();
+    for (;;) {
+      cv.wait(lk, [this] { return cmd != 0; });
+      const int c = cmd;
+      if (c == 1) unodb::this_thread().quiescent();
+      cmd = 0;
+      cv.notify_all();
+      if (c == 2) return;
+    }
+  }
+  void command(int c) {
+    std::unique_lock lk(m);
+    cmd = c;
+    cv.notify_all();
+    cv.wait(lk, [this] { return cmd == 0; });
+  }
+  std::mutex m;
+  std::condition_variable cv;
+  int cmd{0};
+  bool started{false};
+  unodb::qsbr_thread th;
+};
+
+// everything a caller can observe of QSBR: state word, request lists, statistics, and (separately) the live blocks
+struct qsnap {
+  unodb::qsbr_state::type word{};
+  bool prev_empty{}, cur_empty{}, oprev_empty{}, ocur_empty{};
+  std::uint64_t epoch_changes{}, max_backlog{};
+  std::size_t cb_max{};
+  double mean_backlog{}, cb_var{}, mean_qs{};
+  std::string diff(const qsnap& o) const {
+    if (word != o.word) return "QSBR state word";
+    if (prev_empty != o.prev_empty) return "previous-interval request list of the thread";
+    if (cur_empty != o.cur_empty) return "current-interval request list of the thread";
+    if (oprev_empty != o.oprev_empty || ocur_empty != o.ocur_empty) return "orphaned request lists";
+    if (epoch_changes != o.epoch_changes) return "epoch change count";
+    if (max_backlog != o.max_backlog || mean_backlog != o.mean_backlog) return "backlog statistics";
+    if (cb_max != o.cb_max || cb_var != o.cb_var) return "epoch callback statistics";
+    if (mean_qs != o.mean_qs) return "quiescent-states-per-thread statistics";
+    return "";
+  }
+};
+qsnap qcapture() {
+  auto& Q = unodb::qsbr::instance();
+  qsnap s;
+  { const vs::scheduler::quiet q; s.word = Q.get_state(); }
+  s.prev_empty = unodb::this_thread().previous_interval_requests_empty();
+  s.cur_empty = unodb::this_thread().current_interval_requests_empty();
+  s.oprev_empty = Q.previous_interval_orphaned_requests_empty();
+  s.ocur_empty = Q.current_interval_orphaned_requests_empty();
+  s.epoch_changes = Q.get_epoch_change_count();
+  s.max_backlog = Q.get_max_backlog_bytes();
+  s.mean_backlog = Q.get_mean_backlog_bytes();
+  s.cb_max = Q.get_epoch_callback_count_max();
+  s.cb_var = Q.get_epoch_callback_count_variance();
+  s.mean_qs = Q.get_mean_quiescent_states_per_thread_between_epoch_changes();
+  return s;
+}
+
 void qsbr_case(vh::rng& r) {
   auto& Q = unodb::qsbr::instance();
   auto state = [&] { const vs::scheduler::quiet q; return Q.get_state(); };
@@ -453,6 +526,65 @@ void qsbr_case(vh::rng& r) {
     unodb::this_thread().quiescent();
     unodb::this_thread().quiescent();
     if (vm::alloc_tracker::get().blocks_live() != 0) qfail("dealloc/leak", "deferred requests were not executed after the second thread left and two quiescent states passed", json::object().set("blocks", static_cast<u64>(vm::alloc_tracker::get().blocks_live())));
+  }
+  // 4. on_next_epoch_deallocate after a random prelude of {request, own quiescent state, the other thread's quiescent state}:
+  //    reaches the call with requests pending in either interval and with the caller's view of the epoch current or stale
+  {
+    companion* c = nullptr;
+    { vm::alloc_tracker::scoped_ignore ig; c = new companion; }
+    auto epoch_now = [&] { return unodb::qsbr_state::get_epoch(state()); };
+    auto seen = epoch_now();  // the global epoch at the caller's latest QSBR call
+    const auto rounds = 1 + r.below(3);
+    bool bad = false;
+    for (u64 round = 0; round < rounds && !bad; ++round) {
+      const auto prelude = r.below(7);
+      for (u64 i = 0; i < prelude; ++i) {
+        const auto x = r.below(10);
+        if (x < 4) {
+          auto* q = static_cast<qobj*>(unodb::detail::allocate_aligned(sizeof(qobj)));
+          unodb::this_thread().on_next_epoch_deallocate(q, sizeof(qobj), nullptr);
+          seen = epoch_now();
+        } else if (x < 7) {
+          unodb::this_thread().quiescent();
+          seen = epoch_now();
+        } else {
+          c->quiesce();
+        }
+      }
+      if (r.chance(0.6)) { unodb::this_thread().quiescent(); seen = epoch_now(); c->quiesce(); }  // the classic way to fall one epoch behind
+      const bool stale = !(epoch_now() == seen);
+      const bool pending = !unodb::this_thread().current_interval_requests_empty() || !unodb::this_thread().previous_interval_requests_empty();
+      auto* p = static_cast<qobj*>(unodb::detail::allocate_aligned(sizeof(qobj)));
+      const auto s0 = qcapture();
+      const auto live0 = vm::alloc_tracker::get().snapshot();
+      for (u64 k = 1; k < 16; ++k) {
+        bool threw = false;
+        g_context = std::string("on_next_epoch_deallocate (") + (stale ? "stale" : "current") + " epoch view, " + (pending ? "requests pending" : "nothing pending") + ") k=" + std::to_string(k);
+        injector::reset();
+        injector::fail_on_nth_allocation(k);
+        try {
+          unodb::this_thread().on_next_epoch_deallocate(p, sizeof(qobj), nullptr);
+        } catch (const std::bad_alloc&) { threw = true; } catch (...) { threw = true; qfail("dealloc/wrong-exception-type", "on_next_epoch_deallocate failure is not std::bad_alloc"); }
+        injector::reset();
+        rep().evaluation();
+        rep().count("injections.on_next_epoch_deallocate");
+        if (!threw) break;
+        rep().count("failures_surfaced");
+        rep().count(stale ? (pending ? "dealloc_failures.stale_epoch_view.requests_pending" : "dealloc_failures.stale_epoch_view.nothing_pending")
+                          : (pending ? "dealloc_failures.current_epoch_view.requests_pending" : "dealloc_failures.current_epoch_view.nothing_pending"));
+        rep().nontrivial(vh::hash_combine(0xA4, k * 4 + (stale ? 2 : 0) + (pending ? 1 : 0)));
+        const auto d = s0.diff(qcapture());
+        if (!d.empty()) { qfail("dealloc/state-changed", "a failed deallocation request changed what QSBR reports: " + d, json::object().set("what", d).set("stale_epoch_view", stale).set("requests_pending", pending).set("k", k)); bad = true; break; }
+        if (vm::alloc_tracker::get().snapshot() != live0) { qfail("dealloc/blocks-freed", "a failed deallocation request executed (or lost) pending requests: the set of live blocks changed", json::object().set("stale_epoch_view", stale).set("requests_pending", pending).set("k", k)); bad = true; break; }
+      }
+      seen = epoch_now();
+    }
+    // drain: both threads pass three rounds, then the companion leaves
+    for (int i = 0; i < 3; ++i) { unodb::this_thread().quiescent(); c->quiesce(); }
+    { vm::alloc_tracker::scoped_ignore ig; c->stop(); delete c; }
+    unodb::this_thread().quiescent();
+    unodb::this_thread().quiescent();
+    if (!bad && vm::alloc_tracker::get().blocks_live() != 0) qfail("dealloc/leak", "deferred requests were not executed after three rounds of quiescent states, the second thread leaving and two more quiescent states", json::object().set("blocks", static_cast<u64>(vm::alloc_tracker::get().blocks_live())));
   }
   rep().count("qsbr_cases");
 }
